@@ -246,7 +246,57 @@ def r08_3_builders(ctx):
     ctx.floor("R08.3", "builder-option-reads", sites, 7)
 
 
+def split_before_whitespace_decision(ctx, rule):
+    """how the tokenizer cuts text into character tokens depends on its options and on the chunking; a mode of the tree builder that
+    treats whitespace differently from other text therefore first has an unsplit token split (ProcessResult::SplitWhitespace) and
+    decides on the pieces - it never lets the whitespace-ness of a whole unsplit token decide"""
+    from . import nfq
+    key, pcs = nfq.cells(ctx, "html_tree_builder", "rules::TreeBuilder<Handle,Sink>::step")
+    fe = nfq.feasible(pcs)
+    modes = {}
+    for pc in fe:
+        for g, v in pc["guards"].items():
+            m = re.fullmatch(r"p1 matches (\w+)", g)
+            if m and v:
+                modes.setdefault(m.group(1), []).append(pc)
+    n = 0
+    for mode, cells in sorted(modes.items()):
+        distinguishes = any(re.search(r"p2 matches Characters\((Whitespace|NotWhitespace)", g) for pc in cells for g in pc["guards"])
+        whole = [pc for pc in cells if any(g.startswith("any_not_whitespace(p2.1)") for g in pc["guards"])
+                 and not any(v and re.search(r"p2 matches Characters\((Whitespace|NotWhitespace)", g) for g, v in pc["guards"].items())
+                 and not any((not v) and re.search(r"p2 matches Characters\(NotSplit", g) for g, v in pc["guards"].items())]
+        # ... except where the only thing the test decides is the frameset-ok flag going to false: "some piece is not whitespace"
+        # is the same however the text is cut
+        def rest(pc):
+            return {g: v for g, v in pc["guards"].items() if not g.startswith("any_not_whitespace(p2.1)")}
+
+        def wsval(pc):
+            return [v for g, v in pc["guards"].items() if g.startswith("any_not_whitespace(p2.1)")][0]
+
+        def outcome(pc):
+            return (tuple(a for a in nfq.names(pc) if a not in ("set self.frameset_ok", "call any_not_whitespace")), str(pc["ret"]))
+        from lib import machine as _mc
+        decisive = []
+        for x in whole:
+            for y in whole:
+                if wsval(x) and not wsval(y) and not _mc._guard_conflict(rest(x), rest(y)) and outcome(x) != outcome(y):
+                    decisive.append(x)
+                    break
+        whole = decisive
+        if not distinguishes and not whole:
+            continue
+        n += 1
+        splits = [pc for pc in cells if any(v and re.search(r"p2 matches Characters\(NotSplit,_\)", g) for g, v in pc["guards"].items())]
+        ok = bool(splits) and all(str(pc["ret"]).startswith("SplitWhitespace(") and not [a for a in nfq.names(pc) if a != "self.debug_step"] for pc in splits) and not whole
+        ctx.ob(rule, "split-before-whitespace-decision/" + mode, ok, "an unsplit character token is split first; the rules then see whitespace and non-whitespace pieces" if ok else
+               "mode %s treats whitespace specially but %s: what the tree looks like then depends on how the tokenizer happened to cut the text (chunking, exact_errors)" % (
+                   mode, "lets the whitespace-ness of a whole unsplit token decide" if whole else "has no arm that splits an unsplit character token"), "html5ever tree_builder rules " + mode)
+    ctx.floor(rule, "whitespace-sensitive-modes", n, 8)
+
+
 def run(ctx):
+    ctx.rule("R08.4", "every insertion mode that treats whitespace specially splits an unsplit character token first (SplitWhitespace)")
+    ctx.guard("R08.4", "split", lambda: split_before_whitespace_decision(ctx, "R08.4"))
     ctx.rule("R08.1", "for every pop_except_from site S contains the arm's special characters and everything get_preprocessed_char rewrites: slow path == fast path (HTML and XML)")
     ctx.rule("R08.2", "SSE2 masks, NEON masks, scalar tail, first-char pre-test and small_char_set of the Data arm denote the same stop set")
     ctx.rule("R08.3", "every read of exact_errors/profile/drop_doctype/discard_bom is message-only, timing-only or path-select; path-select variants agree; discard_bom read only in feed and cleared")
